@@ -85,6 +85,18 @@ def run_case(case):
         out['build'] = exc_code(ex)
         out['build_exc'] = '%s: %s' % (type(ex).__name__, ex)
         return out
+    # a first call on the SAME objects with other amounts (every estimate one unit larger, put back afterwards): the
+    # observed call must describe the WBS as it is now, whatever an earlier call may have left behind
+    bumped = [(t, t.estimate) for t in objs if t.estimate is not None]
+    try:
+        for t, e in bumped:
+            t.estimate = e + 1
+        wbs.critical_path()
+    except BaseException:  # noqa
+        pass
+    finally:
+        for t, e in bumped:
+            t.estimate = e
     before = snapshot(wbs, objs)
     try:
         res = wbs.critical_path()
